@@ -231,7 +231,7 @@ m = g(r.sub, p.sub) && r.obj == p.obj && r.act == p.act
 
 func init() {
 	register("C07", func(c *Ctx) {
-		c.Rule = "(a) all insertion orders of <=4 (quick) / <=5 (thorough) rules from an 8-rule pool (ties, negative, \"01\", non-numeric priorities, indeterminate effect) with and without an initial load, then one follow-up call; (b) loads of shuffled contents; (c) every digraph on 3/4 nodes (self loops included) as role graph under subjectPriority. Distinct = op sequence / graph; non-trivial = at least two rules with different priorities or a graph with an edge."
+		c.Rule = "(a) all insertion orders of <=4 (quick) / <=5 (thorough) rules from an 8-rule pool (ties, negative, \"01\", non-numeric priorities, indeterminate effect) with and without an initial load, then one follow-up call; (b) loads of shuffled contents; (c) every digraph on 3/4 nodes (self loops included) as role graph under subjectPriority. Distinct = op sequence / graph; non-trivial = at least two rules with different priorities or a graph with an edge. Additions: named policy types (p2) with their own priority column at another position than p (or with a p that has none); subject priority with a domain column over random per-domain forests; after every ordering load the index is probed (HasPolicy on every listed rule, RemovePolicy hits its slot)."
 		maxK := 4
 		if c.Thorough() {
 			maxK = 5
